@@ -197,6 +197,9 @@ def check_sig(spec, ret, future, stats, enum=True, shp=None):
         cs = support.make_up_callsigs(sig, extra=extra)
         named = [p.name for p in spec if p.kind in (PO, POK, KWO)] + ['__make_up_callsigs__extra_%d' % i for i in range(extra)]
         got = {(len(a), frozenset(k)) for a, k in cs}
+        # "contains": the collection can be gone through (and asked) more than once
+        if {(len(a), frozenset(k)) for a, k in cs} != got:
+            stats.fail('C20/make_up_callsigs/one-shot', dict(case, extra=extra), 'make_up_callsigs((%s), extra=%d): going through the result a second time gives something else (%d call shapes the first time)' % (text, extra, len(got)))
         miss = None
         # keyword subsets are drawn from the named parameters, the extra names and the spellings of the star parameters
         kwpool = named + [p.name for p in spec if p.kind in (VP, VK)]
@@ -240,7 +243,7 @@ def st_case():
 
     @st.composite
     def build(draw):
-        spec = draw(universe.st_spec(HN, 5, ('args',), ('kwargs',), default_exprs=('1', "'dv'", '3'), ann_exprs=tuple(ANNS)))
+        spec = draw(universe.st_spec(HN, 5, ('args',), ('kwargs',), default_exprs=('1', "'dv'", '3', '()', 'frozenset()', 'None'), ann_exprs=tuple(ANNS)))
         ret = draw(st.sampled_from([None, "'ret'", 'T', '1']))
         return (spec, ret, draw(st.booleans()))
     return build()
